@@ -164,7 +164,7 @@ ExecOp(code, data, st, op, digest(_)) ==
     [] op = PCOP         -> nxt(<<FromNat(pc, 256)>> \o s, m)
     [] op = JUMPDEST     -> nxt(s, m)
     [] op \in {RETURN, REVERT} ->
-         Halt([st EXCEPT !.mem = m], IF op = RETURN THEN "return" ELSE "revert",
+         Halt([st EXCEPT !.mem = m, !.stack = Rest(s, 2)], IF op = RETURN THEN "return" ELSE "revert",
               IF s[2] = <<>> THEN <<>> ELSE Slice(m, SmallVal(s[1]), SmallVal(s[2])))
 
 (* validation in the order of the interpreter: opcode, stack, memory size *)
@@ -182,17 +182,17 @@ InitState == [pc |-> 0, stack |-> <<>>, mem |-> <<>>, rd |-> <<>>]
 CONSTANTS Alphabet,              \* set of byte values programs are made of
           MaxLen,                \* programs: all byte sequences of length 1..MaxLen
           Datas                  \* set of call data byte sequences
-VARIABLES code, data, st, status, jumped
-vars == <<code, data, st, status, jumped>>
+VARIABLES code, data, st, status, jumped, ret
+vars == <<code, data, st, status, jumped, ret>>
 
 Programs == UNION {[1..n -> Alphabet] : n \in 1..MaxLen}
 
 Init == /\ code \in Programs /\ data \in Datas
-        /\ st = InitState /\ status = "run" /\ jumped = FALSE
+        /\ st = InitState /\ status = "run" /\ jumped = FALSE /\ ret = <<>>
 
 Step == /\ status = "run"
         /\ LET r == Exec(code, data, st, Digest) IN
-             /\ st' = r.st
+             /\ st' = r.st /\ ret' = r.ret
              /\ status' = IF r.kind = "ok" THEN "run" ELSE IF r.kind = "halt" THEN r.how ELSE "fault:" \o r.how
              /\ jumped' = (r.kind = "ok" /\ OpAt(code, st.pc) \in {JUMP, JUMPI} /\ r.st.pc # st.pc + 1)
         /\ UNCHANGED <<code, data>>
